@@ -11,7 +11,7 @@ INT_W = {"u8": 1, "i8": 1, "u16": 2, "i16": 2, "u32": 4, "i32": 4, "u64": 8, "i6
 def int_conv(c):
     """('w'|'r', type, width, endian) for <int>::to_xx_bytes / from_xx_bytes calls"""
     n = c.full
-    mm = re.search(r"num::<impl (\w+)>::(to|from)_(be|le|ne)_bytes$", n)
+    mm = re.search(r"<impl (\w+)>::(to|from)_(be|le|ne)_bytes$", n)
     if not mm:
         mm2 = re.search(r"(f32|f64)::(to|from)_(be|le|ne)_bytes$", n)
         if not mm2:
